@@ -179,9 +179,6 @@ func (i *InMemCollector) Start() error {
 	i.Metrics.Store(DENOMINATOR_INCOMING_CAP, float64(imcConfig.IncomingQueueSize))
 	i.Metrics.Store(DENOMINATOR_PEER_CAP, float64(imcConfig.PeerQueueSize))
 
-	// listen for config reloads
-	i.Config.RegisterReloadCallback(i.sendReloadSignal)
-
 	// Find or create a test, make sure we signal health based (somehow)
 	// on all the collect workers running.
 	i.Health.Register(collectorHealthKey, i.Config.GetHealthCheckTimeout())
@@ -193,6 +190,10 @@ func (i *InMemCollector) Start() error {
 	i.tracesToSend = make(chan sendableTrace, 100_000)
 	i.done = make(chan struct{})
 	i.reload = make(chan struct{}, 1)
+
+	// listen for config reloads; the reload channel must exist before the
+	// callback can be invoked from another goroutine
+	i.Config.RegisterReloadCallback(i.sendReloadSignal)
 
 	i.updateHostname()
 
